@@ -530,6 +530,152 @@ def rule_lazy(ctx):
             ctx.ok(rid, "sec-half-shape", "lock(); map.entry(idx).or_insert_with(pure fn of n)", nontrivial=True, fn=f)
 
 
+def rule_scratch(ctx):
+    """per-worker scratch handed to the `*_with` pool calls carries nothing from one job to the next"""
+    from ..mirutil import find_path_edges, strip_generics
+    rid = "R-SCRATCH"
+    ctx.rule(rid, "JxlThreadPool::for_each_vec_with / for_each_mut_slice_with give every job a scratch value that is cloned once per worker "
+                  "(once in total without a pool) and reused by whatever jobs that worker happens to run: a job must therefore overwrite "
+                  "every scratch element it later reads. For a Vec/slice scratch the closure must contain a loop over "
+                  "scratch.iter_mut() in which every iteration stores through the element (no path from the element binding back to the "
+                  "loop head avoids the store), and every other use of the scratch comes after that loop. Otherwise the value a job "
+                  "sees depends on which jobs ran before it on the same worker, i.e. on the pool and the schedule")
+    n = 0
+    for f in ctx.prog.all_fns(LIB_CRATES):
+        for b, t in f.calls():
+            c = callee(t)
+            if not c:
+                continue
+            nm = strip_generics(c["fn"])
+            if not (nm.endswith("JxlThreadPool::for_each_vec_with") or nm.endswith("JxlThreadPool::for_each_mut_slice_with")):
+                continue
+            if f.crate == "jxl_threadpool":
+                continue
+            n += 1
+            ctx.seen(f)
+            defs = Defs(f)
+            cl = op_local(t[2][3]) if len(t[2]) > 3 else None
+            d = defs.single(cl) if cl is not None else None
+            g = None
+            if d and d[2] == "assign" and d[3][2][0] == "agg" and d[3][2][1][0] == "closure":
+                g = ctx.prog.fn(d[3][2][1][1])
+            key = "scratch:%s" % f.path
+            if g is None:
+                ctx.bad(rid, key + "|closure-not-found", "cannot find the job closure of a *_with pool call", fn=f, pos=t[-2])
+                continue
+            ctx.seen(g)
+            verdict = scratch_overwritten(g)
+            if verdict is None:
+                ctx.ok(rid, key, "every iteration of the scratch.iter_mut() loop stores the element; other uses follow the loop", nontrivial=True, fn=g)
+            else:
+                ctx.bad(rid, key + "|stale-scratch", "the per-worker scratch of this parallel loop is not fully rewritten by each job (%s): a job "
+                        "can read what the previous job on the same worker left, so the output depends on the pool and the schedule" % verdict,
+                        fn=g, pos=t[-2])
+    ctx.counts[rid + ".sites"] = n
+    ctx.floor(rid + ".sites", 1)
+
+
+def scratch_overwritten(g):
+    """None if the closure g (params: env, scratch, item) rewrites its Vec/slice scratch before use, else a description"""
+    from ..mirutil import find_path_edges, alias_closure, strip_generics
+    SCR = 2
+    gd = Defs(g)
+
+    def derives_from_scratch(l, depth=0):
+        seen = set()
+        while l is not None and l not in seen and depth < 20:
+            depth += 1
+            seen.add(l)
+            if l == SCR:
+                return True
+            d = gd.single(l)
+            if not d:
+                return False
+            if d[2] == "assign":
+                rv = d[3][2]
+                pl = rv[2] if rv[0] == "ref" else (op_place(rv[1]) if rv[0] == "use" else None)
+                l = pl[0] if pl is not None else None
+            elif d[2] == "call":
+                c = callee(d[3])
+                if c and strip_generics(c["fn"]).split("::")[-1] in ("deref_mut", "deref", "as_mut", "as_mut_slice", "iter_mut", "enumerate", "into_iter", "zip", "skip", "take") and d[3][2]:
+                    l = op_local(d[3][2][0])
+                else:
+                    return False
+            else:
+                return False
+        return False
+
+    # `next()` on an iterator derived from scratch.iter_mut()
+    loops = []
+    for b, t in g.calls():
+        c = callee(t)
+        if not c or not c["fn"].endswith("::next") or not t[2]:
+            continue
+        it = op_local(t[2][0])
+        # &mut iter -> iter -> into_iter(enumerate(iter_mut(deref_mut(&mut *scratch))))
+        if not derives_from_scratch(it):
+            continue
+        chain_has_iter_mut = False
+        l = it
+        seen = set()
+        while l is not None and l not in seen:
+            seen.add(l)
+            d = gd.single(l)
+            if not d:
+                break
+            if d[2] == "call":
+                cc = callee(d[3])
+                if cc and "iter_mut" in cc["fn"]:
+                    chain_has_iter_mut = True
+                l = op_local(d[3][2][0]) if d[3][2] else None
+            elif d[2] == "assign":
+                rv = d[3][2]
+                pl = rv[2] if rv[0] == "ref" else (op_place(rv[1]) if rv[0] == "use" else None)
+                l = pl[0] if pl is not None else None
+            else:
+                break
+        if chain_has_iter_mut:
+            loops.append((b, t))
+    if not loops:
+        uses = any(SCR in [st[1][0]] or any(op_place(o) is not None and op_place(o)[0] == SCR for o in ([st[2][1]] if st[2][0] == "use" else []))
+                   for blk in g.blocks if not blk[2] for st in blk[0] if st[0] == "=")
+        return "no loop over scratch.iter_mut() rewrites it" if True else None
+    for b, t in loops:
+        res = t[3][0]
+        nxt = t[4]
+        tt = g.term(nxt)
+        if tt[0] != "switch":
+            return "unrecognised loop shape"
+        some = [x for v, x in tt[2] if v == "1"]
+        if not some:
+            return "unrecognised loop shape"
+        some = some[0]
+        # element references: locals of type &mut T assigned from the Some payload
+        elems = set()
+        for st in g.stmts(some):
+            if st[0] == "=" and len(st[1]) == 1 and st[2][0] == "use":
+                pl = op_place(st[2][1])
+                if pl is not None and pl[0] == res and g.local_ty(st[1][0]).startswith("&mut "):
+                    elems |= alias_closure(g, {st[1][0]}, through_try=False)
+        if not elems:
+            return "the loop does not bind the scratch element mutably"
+        stores = set()
+        for bb, blk in enumerate(g.blocks):
+            if blk[2]:
+                continue
+            for st in blk[0]:
+                if st[0] == "=" and len(st[1]) == 2 and st[1][1] == "*" and st[1][0] in elems:
+                    stores.add(bb)
+        if not stores:
+            return "no store through the scratch element"
+        if some in stores:
+            continue
+        p = find_path_edges(g, [some], lambda x: x == b, avoid_block=lambda x: x in stores)
+        if p is not None:
+            return "an iteration of the rewrite loop can skip the store (line %d)" % pos_line(g.term_pos(some))
+    return None
+
+
 def main(pid, tier, repo=None):
     configs = ("workspace",) if tier == "quick" else ("workspace", "norayon")
     ctx = Ctx(pid, tier, configs=configs, repo=repo)
@@ -539,11 +685,13 @@ def main(pid, tier, repo=None):
         rule_parstate(ctx)
         rule_errslot(ctx)
         rule_lazy(ctx)
+        rule_scratch(ctx)
         # concurrent callers of one image: the wake-up half of the handle protocol (shared with C20)
         from . import proto
         infos = proto.scan_all(ctx)
         proto.rule_done_render(ctx, infos)
         proto.rule_wait(ctx, infos)
+        proto.rule_placeholder(ctx, infos)
     ctx.not_decided("bit-identity of samples across pool sizes (needs the disjointness arithmetic of into_groups*, value-level)")
     ctx.not_decided("idempotence of the relaxed-atomic group-offset cache (argued: every store is a function of the frame bytes)")
     return ctx.finish(
